@@ -1,6 +1,7 @@
 package main
 
 import (
+	"strings"
 	"fmt"
 	"net"
 	"os"
@@ -288,7 +289,12 @@ func c08Plan(c *Ctx, planNo int, T time.Duration) {
 	}
 	for _, ct := range ctrls {
 		if ct.path == "tcp-refused" {
-			cfg.Devices = append(cfg.Devices, DevCfg{ID: ct.serial, Addr: fmt.Sprintf("127.0.0.1:%d", freePort("127.0.0.1")), Proto: "tcp", NewDevice: true})
+			// (never the bind port itself: a TCP connect from 127.0.0.1:P to 127.0.0.1:P connects to itself and reads its own request back)
+			refused := freePort("127.0.0.1")
+			for try := 0; try < 20 && strings.HasSuffix(cfg.Bind, fmt.Sprintf(":%d", refused)); try++ {
+				refused = freePort("127.0.0.1")
+			}
+			cfg.Devices = append(cfg.Devices, DevCfg{ID: ct.serial, Addr: fmt.Sprintf("127.0.0.1:%d", refused), Proto: "tcp", NewDevice: true})
 		} else if ct.path != "broadcast" {
 			cfg.Devices = append(cfg.Devices, DevCfg{ID: ct.serial, Addr: ct.ep.Addr, Proto: ct.path, NewDevice: true})
 		}
